@@ -9,6 +9,7 @@
 From Coq Require Import Permutation.
 From AV Require Import Base.Bytes Base.Outcome Hash.HashModel Tree.Heap Tree.Ops Tree.Script Tree.Load Tree.Observe
   Tree.LoadProofsBase Tree.LoadProofs Tree.LoadEffects.
+From AV Require Tree.LoadRefineMain Tree.MergeSpec.
 From AV Require Xml.Lexer Xml.Parser.
 Open Scope string_scope.
 Open Scope list_scope.
@@ -517,3 +518,454 @@ Proof.
 Qed.
 
 End RejectBuffer.
+
+(* ====================================================================== when NOTHING observable changes *)
+(* extensional equality of worlds (the node store is a function) *)
+Definition weq (w w' : world) : Prop :=
+  w_next w' = w_next w /\ w_files w' = w_files w /\ w_models w' = w_models w /\ forall i, w_nodes w' i = w_nodes w i.
+Lemma weq_refl w : weq w w. Proof. repeat split; auto. Qed.
+Lemma weq_trans a b c : weq a b -> weq b c -> weq a c.
+Proof. intros (A1 & A2 & A3 & A4) (B1 & B2 & B3 & B4). repeat split; try congruence. Qed.
+
+(* no membership mentions the file f *)
+Definition FreshIn (f : N) (w : world) : Prop := forall i n, w_nodes w i = Some n -> ~ In f (n_files n).
+Lemma FreshIn_weq f w w' : weq w w' -> FreshIn f w -> FreshIn f w'.
+Proof. intros (_ & _ & _ & H) HF i n Hn. rewrite H in Hn. eapply HF; eauto. Qed.
+
+Lemma set_remove_notin f l : ~ In f l -> set_remove f l = l.
+Proof.
+  unfold set_remove. induction l as [|y l IH]; intros H; cbn [filter]; [reflexivity|].
+  destruct (y =? f) eqn:E; [apply N.eqb_eq in E; exfalso; apply H; left; exact E|]. cbn [negb]. f_equal. apply IH.
+  intros H0. apply H. right. exact H0.
+Qed.
+Lemma set_files_same n : set_files n (n_files n) = n. Proof. destruct n; reflexivity. Qed.
+Lemma weq_upd_same w i n : w_nodes w i = Some n -> weq w (mkWorld (upd (w_nodes w) i n) (w_next w) (w_files w) (w_models w)).
+Proof.
+  intros H. repeat split; auto. intros j. cbn [w_nodes]. destruct (N.eq_dec j i) as [->|Hne]; [rewrite upd_eq; auto|apply upd_neq; exact Hne].
+Qed.
+
+Section Quiet.
+Variable T : tables.
+Variables LATEST defref : N.
+
+(* ---------- the rollback does nothing when no membership mentions the file ---------- *)
+Fixpoint rf_scan (f : N) (l : list id) : W (list id) :=
+  match l with
+  | [] => wret []
+  | s :: rest =>
+    (do sn <- get_node s;
+     if negb (is_empty (n_files sn)) then
+       let fs := set_remove f (n_files sn) in
+       set_node s (set_files sn fs);;
+       do r <- rf_scan f rest;
+       wret (if is_empty fs then s :: r else r)
+     else rf_scan f rest)%W
+  end.
+
+Lemma rf_scan_fresh f : forall l w r w', FreshIn f w -> rf_scan f l w = Val (r, w') -> weq w w' /\ (forall x, r = OK x -> x = []).
+Proof.
+  induction l as [|s rest IH]; intros w r w' HF H; cbn [rf_scan] in H.
+  - apply wret_inv in H as (-> & ->). split; [apply weq_refl|]. intros x [= <-]. reflexivity.
+  - apply wbind_inv in H as [(sn & w1 & H1 & H) | (e & H1 & _)]; [|apply get_node_inv in H1 as (? & _ & [=] & _)].
+    apply get_node_inv in H1 as (sn' & Hsn & [= <-] & ->).
+    destruct (is_empty (n_files sn)) eqn:Ee; cbn [negb] in H; [eapply IH; eauto|].
+    rewrite (set_remove_notin f (n_files sn) (HF s sn Hsn)), set_files_same in H.
+    apply wbind_inv in H as [(u & w1 & H1 & H) | (e & H1 & _)]; [|apply set_node_inv in H1 as ([=] & _)].
+    apply set_node_inv in H1 as (_ & ->).
+    pose proof (weq_upd_same w s sn Hsn) as W1.
+    apply wbind_inv in H as [(r0 & w2 & H2 & H) | (e & H2 & ->)].
+    + destruct (IH _ _ _ (FreshIn_weq f _ _ W1 HF) H2) as (W2 & Hr). rewrite (Hr r0 eq_refl) in H. rewrite Ee in H.
+      apply wret_inv in H as (-> & ->). split; [eapply weq_trans; eauto|]. intros x [= <-]. reflexivity.
+    + destruct (IH _ _ _ (FreshIn_weq f _ _ W1 HF) H2) as (W2 & _). split; [eapply weq_trans; eauto|]. intros x [=].
+Qed.
+
+Lemma e_remove_from_file_scan e f w :
+  e_remove_from_file T e f w =
+  (do n <- get_node e;
+   do ps <- parent_splittable T n;
+   if negb ps then wfail FilesetModificationForbidden else
+   do fm <- file_model f;
+   do m <- model_of e;
+   if negb (fm =? m) then wfail InvalidFile else
+   do '(_, cur) <- file_membership e;
+   let restricted := set_remove f cur in
+   (if is_empty restricted then
+      do p <- parent_of n;
+      match p with
+      | Some pi => do _ <- wtry (e_remove_sub_element T pi e); wret tt
+      | None => wret tt
+      end
+    else wret tt);;
+   modify_node e (fun x => set_files x restricted);;
+   do w <- wget;
+   do ids <- dfs_ids (fuel_of w) e;
+   do to_delete <- rf_scan f ids;
+   (fix del (l : list id) : W unit :=
+      match l with
+      | [] => wret tt
+      | d :: rest =>
+        do dn <- get_node d;
+        do p <- wtry (parent_of dn);
+        (match p with
+         | Some (Some pi) => do _ <- wtry (e_remove_sub_element T pi d); wret tt
+         | _ => wret tt
+         end);; del rest
+      end) to_delete)%W w.
+Proof.
+  unfold e_remove_from_file.
+  apply LoadRefineMain.wbind_ext. intros n w1. apply LoadRefineMain.wbind_ext. intros ps w2.
+  destruct (negb ps); [reflexivity|].
+  apply LoadRefineMain.wbind_ext. intros fm w3. apply LoadRefineMain.wbind_ext. intros m w4.
+  destruct (negb (fm =? m)); [reflexivity|].
+  apply LoadRefineMain.wbind_ext. intros [loc cur] w5. apply LoadRefineMain.wbind_ext. intros u1 w6.
+  apply LoadRefineMain.wbind_ext. intros u2 w7. apply LoadRefineMain.wbind_ext. intros w0 w8.
+  apply LoadRefineMain.wbind_ext. intros ids w9. apply LoadRefineMain.wbind_ext2.
+  induction ids as [|s rest IHs]; intros w10; cbn [rf_scan]; [reflexivity|].
+  apply LoadRefineMain.wbind_ext. intros sn w11. destruct (negb (is_empty (n_files sn))); [|apply IHs].
+  apply LoadRefineMain.wbind_ext. intros u3 w12. apply LoadRefineMain.wbind_ext2. exact IHs.
+Qed.
+
+Lemma rollback_fresh e f w r w' :
+  FreshIn f w -> (forall n, w_nodes w e = Some n -> n_files n <> []) ->
+  e_remove_from_file T e f w = Val (r, w') -> weq w w'.
+Proof.
+  intros HF Hroot H. rewrite e_remove_from_file_scan in H.
+  apply wbind_inv in H as [(n & w1 & H1 & H) | (e0 & H1 & _)]; [|apply get_node_inv in H1 as (? & _ & [=] & _)].
+  apply get_node_inv in H1 as (n' & Hn & [= <-] & ->).
+  apply wbind_inv in H as [(ps & w1 & H1 & H) | (e0 & H1 & _)]; apply ro_parent_splittable in H1; subst; [|apply weq_refl].
+  destruct (negb ps); [apply wfail_inv in H as (_ & ->); apply weq_refl|].
+  apply wbind_inv in H as [(fm & w1 & H1 & H) | (e0 & H1 & _)]; apply ro_file_model in H1; subst; [|apply weq_refl].
+  apply wbind_inv in H as [(m & w1 & H1 & H) | (e0 & H1 & _)]; apply ro_model_of in H1; subst; [|apply weq_refl].
+  destruct (negb (fm =? m)); [apply wfail_inv in H as (_ & ->); apply weq_refl|].
+  apply wbind_inv in H as [([loc cur] & w1 & H1 & H) | (e0 & H1 & _)]; [|apply ro_file_membership in H1; subst; apply weq_refl].
+  assert (Ecur : cur = n_files n /\ w1 = w).
+  { pose proof (Hroot n Hn) as Hne. unfold file_membership, wbind, wget in H1. cbn [fuel_of fm_walk] in H1.
+    unfold wbind, get_node in H1. rewrite Hn in H1. destruct (n_files n) as [|f0 fr] eqn:Ef; [congruence|].
+    cbn [is_empty negb] in H1. unfold wret in H1. injection H1 as _ <- <-. auto. }
+  destruct Ecur as (-> & ->). clear H1.
+  rewrite (set_remove_notin f (n_files n) (HF e n Hn)) in H.
+  assert (Ee : is_empty (n_files n) = false) by (pose proof (Hroot n Hn); destruct (n_files n); [congruence|reflexivity]).
+  cbv zeta in H. rewrite Ee in H.
+  apply wbind_inv in H as [(u & w1 & H1 & H) | (e0 & H1 & _)]; [|apply wret_inv in H1 as ([=] & _)].
+  apply wret_inv in H1 as (_ & ->).
+  apply wbind_inv in H as [(u2 & w1 & H1 & H) | (e0 & H1 & _)]; [|apply modify_node_inv in H1 as (? & _ & [=] & _)].
+  apply modify_node_inv in H1 as (n2 & Hn2 & _ & ->). rewrite Hn in Hn2. injection Hn2 as <-. rewrite set_files_same in H.
+  pose proof (weq_upd_same w e n Hn) as W1. set (w1 := mkWorld _ _ _ _) in *.
+  apply wbind_inv in H as [(w0 & w2 & H1 & H) | (e0 & H1 & _)]; [|apply wget_inv in H1 as ([=] & _)].
+  apply wget_inv in H1 as (_ & ->).
+  apply wbind_inv in H as [(ids & w2 & H1 & H) | (e0 & H1 & _)]; apply ro_dfs_ids in H1; subst; [|exact W1].
+  apply wbind_inv in H as [(td & w2 & H1 & H) | (e0 & H1 & ->)].
+  - destruct (rf_scan_fresh f ids w1 _ _ (FreshIn_weq f _ _ W1 HF) H1) as (W2 & Htd). rewrite (Htd td eq_refl) in H.
+    apply wret_inv in H as (_ & ->). eapply weq_trans; eauto.
+  - destruct (rf_scan_fresh f ids w1 _ _ (FreshIn_weq f _ _ W1 HF) H1) as (W2 & _). eapply weq_trans; eauto.
+Qed.
+
+
+(* ---------- install: the new nodes have no membership ---------- *)
+Definition FK (w w1 : world) : Prop :=
+  forall i n1, w_nodes w1 i = Some n1 -> n_files n1 = [] \/ exists n, w_nodes w i = Some n /\ n_files n1 = n_files n.
+Lemma FK_refl w : FK w w. Proof. intros i n H. right. eauto. Qed.
+Lemma FK_trans a b c : FK a b -> FK b c -> FK a c.
+Proof.
+  intros H1 H2 i n3 H3. destruct (H2 i n3 H3) as [E|(n2 & Hn2 & E)]; [left; exact E|].
+  destruct (H1 i n2 Hn2) as [E2|(n1 & Hn1 & E2)]; [left; congruence|right; exists n1; split; [exact Hn1|congruence]].
+Qed.
+
+Lemma FK_install : forall e parent, effR FK (install parent e).
+Proof.
+  fix IH 1. intros [name ty attrs content comment] parent. cbn [install].
+  apply (effR_bind FK FK_trans).
+  { intros w r w' H. apply alloc_inv in H as (_ & ->). intros i n1 H1. cbn [w_nodes] in H1.
+    destruct (N.eq_dec i (w_next w)) as [->|Hne]; [rewrite upd_eq in H1; injection H1 as <-; left; reflexivity|].
+    rewrite upd_neq in H1 by exact Hne. right. eauto. }
+  intros i. apply (effR_bind FK FK_trans).
+  - induction content as [|[c|d] r IHr].
+    + apply (effR_ro FK FK_refl), ro_ret.
+    + apply (effR_bind FK FK_trans); [apply IH|intros t]. apply (effR_bind FK FK_trans); [exact IHr|intros [cs ts]].
+      apply (effR_ro FK FK_refl), ro_ret.
+    + apply (effR_bind FK FK_trans); [exact IHr|intros [cs ts]]. apply (effR_ro FK FK_refl), ro_ret.
+  - intros [items kids]. apply (effR_bind FK FK_trans); [|intros _; apply (effR_ro FK FK_refl), ro_ret].
+    intros w r w' H. apply modify_node_inv in H as (n & Hn & _ & ->). intros j n1 H1. cbn [w_nodes] in H1.
+    destruct (N.eq_dec j i) as [->|Hne]; [rewrite upd_eq in H1; injection H1 as <-; right; exists n; auto|].
+    rewrite upd_neq in H1 by exact Hne. right. eauto.
+Qed.
+
+Lemma FreshIn_FK f w w1 : FK w w1 -> FreshIn f w -> FreshIn f w1.
+Proof.
+  intros HK HF i n1 H1. destruct (HK i n1 H1) as [E|(n & Hn & E)]; rewrite E; [intros []|eapply HF; eauto].
+Qed.
+
+(* ---------- the merge stage is quiet: the conflict is found before anything is restricted, imported or given the new
+   file — every step executed before it is the identity on the node it touches (sub-elements that only the model has
+   already have an explicit membership, nothing is imported, the pairs merged before the conflict merge without any
+   change and inherit their membership).  [qrun] follows the merge and returns Some (rejected?, world) in that case ---------- *)
+Definition bumpf (nf : N) (x : node) : node := if negb (is_empty (n_files x)) then set_files x (set_add nf (n_files x)) else x.
+
+Fixpoint qsubs (rec : world -> id -> list N -> id -> option (bool * world)) (files : list N) (nf : N)
+         (l : list (id * id)) (w : world) {struct l} : option (bool * world) :=
+  match l with
+  | [] => Some (false, w)
+  | (ea, eb) :: r =>
+    match w_nodes w ea with
+    | None => None
+    | Some nea =>
+      match rec w ea (if negb (is_empty (n_files nea)) then n_files nea else files) eb with
+      | None => None
+      | Some (true, w2) => Some (true, w2)
+      | Some (false, w2) =>
+        match w_nodes w2 ea with
+        | Some n2 =>
+          if is_empty (n_files n2) then
+            match modify_node ea (bumpf nf) w2 with
+            | Val (OK _, w3) => qsubs rec files nf r w3
+            | _ => None
+            end
+          else None
+        | None => None
+        end
+      end
+    end
+  end.
+
+Fixpoint qrun (fuel : nat) (w : world) (pa : id) (files : list N) (pb : id) (nf : N) {struct fuel} : option (bool * world) :=
+  match fuel with
+  | O => None
+  | S fl =>
+    match w_nodes w pa, w_nodes w pb with
+    | Some na, Some nb =>
+      let pty := n_type na in
+      match keys_of T defref w pty (n_content na), keys_of T defref w pty (n_content nb),
+            splittable_in T pty (N.min (files_min_version LATEST w files)
+                                       (match nth_opt (w_files w) (N.to_nat nf) with Some x => f_version x | None => LATEST end)) with
+      | Val la, Val lb, Val sp =>
+        match walk (S (List.length la + List.length lb)) la lb sp (N.of_nat (List.length (n_content na))) 0 la lb (mkWalked [] [] []) with
+        | Val (ER _) => Some (true, w)
+        | Val (OK wk) =>
+          if forallb (fun e => match w_nodes w e with Some n => negb (is_empty (n_files n)) | None => false end) (wk_a_only wk) &&
+             is_empty (wk_b_only wk)
+          then match restrict_a_only (wk_a_only wk) files w with
+               | Val (OK _, w1) => qsubs (fun w a f b => qrun fl w a f b nf) files nf (wk_merge wk) w1
+               | _ => None
+               end
+          else None
+        | _ => None
+        end
+      | _, _, _ => None
+      end
+    | _, _ => None
+    end
+  end.
+
+Definition quiet (fuel : nat) (w : world) (pa : id) (files : list N) (pb : id) (nf : N) : bool :=
+  match qrun fuel w pa files pb nf with Some (true, _) => true | _ => false end.
+
+Lemma restrict_weq files : forall l w r w',
+  forallb (fun e => match w_nodes w e with Some n => negb (is_empty (n_files n)) | None => false end) l = true ->
+  restrict_a_only l files w = Val (r, w') -> weq w w'.
+Proof.
+  induction l as [|e l IH]; intros w r w' Hall H; cbn [restrict_a_only] in H.
+  - apply wret_inv in H as (_ & ->). apply weq_refl.
+  - cbn [forallb] in Hall. apply andb_true_iff in Hall as [He Hall].
+    destruct (w_nodes w e) as [n|] eqn:En; [|discriminate].
+    apply wbind_inv in H as [(u & w1 & H1 & H) | (e0 & H1 & _)]; [|apply modify_node_inv in H1 as (? & _ & [=] & _)].
+    apply modify_node_inv in H1 as (n' & Hn' & _ & ->). rewrite En in Hn'. injection Hn' as <-.
+    apply negb_true_iff in He. rewrite He in H.
+    pose proof (weq_upd_same w e n En) as W1. eapply weq_trans; [exact W1|]. eapply IH; [|exact H].
+    destruct W1 as (_ & _ & _ & W1). clear -Hall W1. induction l as [|x l IHl]; [reflexivity|]. cbn [forallb] in *.
+    apply andb_true_iff in Hall as [H1 H2]. rewrite W1, H1. cbn [andb]. apply IHl. exact H2.
+Qed.
+
+Definition qout (b : bool) : out unit := if b then ER InvalidFileMerge else OK tt.
+
+Theorem qrun_sound : forall fuel w pa files pb nf b w',
+  qrun fuel w pa files pb nf = Some (b, w') ->
+  merge_element T LATEST defref fuel pa files pb nf w = Val (qout b, w') /\ weq w w'.
+Proof.
+  induction fuel as [|fl IH]; intros w pa files pb nf b w' Hq; [discriminate|].
+  cbn [qrun] in Hq. rewrite LoadRefineMain.merge_element_unfold.
+  destruct (w_nodes w pa) as [na|] eqn:Ena; [|discriminate]. destruct (w_nodes w pb) as [nb|] eqn:Enb; [|discriminate].
+  cbv zeta in Hq.
+  destruct (keys_of T defref w (n_type na) (n_content na)) as [la| |] eqn:Ela; try discriminate.
+  destruct (keys_of T defref w (n_type na) (n_content nb)) as [lb| |] eqn:Elb; try discriminate.
+  destruct (splittable_in T (n_type na) _) as [sp| |] eqn:Esp; try discriminate.
+  unfold wbind at 1. cbn [wget]. unfold wbind at 1. unfold get_node at 1. rewrite Ena.
+  unfold wbind at 1. unfold get_node at 1. rewrite Enb. cbv zeta.
+  rewrite LoadRefineHeap.wbind_wl, Ela, LoadRefineHeap.wbind_wl, Elb, LoadRefineHeap.wbind_wl, Esp.
+  destruct (walk _ la lb sp _ 0 la lb _) as [[wk|e]| |] eqn:Ew; try discriminate.
+  - destruct (forallb _ (wk_a_only wk) && is_empty (wk_b_only wk)) eqn:Hc; [|discriminate].
+    apply andb_true_iff in Hc as [Hall Hb].
+    destruct (restrict_a_only (wk_a_only wk) files w) as [[[u|e] w1]| |] eqn:Er; try discriminate.
+    pose proof (restrict_weq files _ _ _ _ Hall Er) as W1.
+    unfold wbind at 1. unfold wbind at 1. rewrite Er.
+    destruct (wk_b_only wk); [|discriminate]. cbn [import_new_items]. unfold wbind at 1. cbn [wret].
+    assert (G : forall l w1 b w', qsubs (fun w a f b => qrun fl w a f b nf) files nf l w1 = Some (b, w') ->
+                LoadRefineMain.subs_loop T LATEST defref fl files nf l w1 = Val (qout b, w') /\ weq w1 w').
+    { clear -IH. induction l as [|[ea eb] r IHl]; intros w1 b w' Hs; cbn [qsubs] in Hs.
+      - injection Hs as <- <-. split; [reflexivity|apply weq_refl].
+      - cbn [LoadRefineMain.subs_loop].
+        destruct (w_nodes w1 ea) as [nea|] eqn:Eea; [|discriminate].
+        destruct (qrun fl w1 ea _ eb nf) as [[[|] w2]|] eqn:Eq; [| |discriminate].
+        + injection Hs as <- <-. destruct (IH _ _ _ _ _ _ _ Eq) as (E2 & W2).
+          split; [|exact W2]. unfold wbind at 1. unfold get_node at 1. rewrite Eea. unfold wbind at 1. rewrite E2. reflexivity.
+        + destruct (IH _ _ _ _ _ _ _ Eq) as (E2 & W2).
+          destruct (w_nodes w2 ea) as [n2|] eqn:En2; [|discriminate].
+          destruct (is_empty (n_files n2)) eqn:Ee; [|discriminate].
+          destruct (modify_node ea (bumpf nf) w2) as [[[u3|e3] w3]| |] eqn:Em; try discriminate.
+          destruct (IHl _ _ _ Hs) as (E3 & W3).
+          assert (W23 : weq w2 w3).
+          { apply modify_node_inv in Em as (n2' & Hn2' & _ & ->). rewrite En2 in Hn2'. injection Hn2' as <-.
+            unfold bumpf. rewrite Ee. cbn [negb]. apply weq_upd_same. exact En2. }
+          split; [|eapply weq_trans; [exact W2|eapply weq_trans; eauto]].
+          unfold wbind at 1. unfold get_node at 1. rewrite Eea. unfold wbind at 1. rewrite E2. cbn [qout].
+          unfold wbind at 1. fold (bumpf nf). rewrite Em. exact E3. }
+    destruct (G _ _ _ _ Hq) as (E & W). split; [exact E|eapply weq_trans; eauto].
+  - injection Hq as <- <-. split; [|apply weq_refl]. unfold wbind at 1.
+    rewrite (walk_err _ _ _ _ _ _ _ _ _ _ Ew). reflexivity.
+Qed.
+
+Theorem quiet_sound fuel w pa files pb nf :
+  quiet fuel w pa files pb nf = true ->
+  exists w', merge_element T LATEST defref fuel pa files pb nf w = Val (ER InvalidFileMerge, w') /\ weq w w'.
+Proof.
+  unfold quiet. destruct (qrun fuel w pa files pb nf) as [[[|] w']|] eqn:E; try discriminate. intros _.
+  exists w'. exact (qrun_sound _ _ _ _ _ _ _ _ E).
+Qed.
+
+End Quiet.
+
+Section QuietLoad.
+Variable T : tables.
+Variables LATEST defref : N.
+
+(* decidable: run the install, then follow the leftmost merge path of the merge (no effect is executed that is not undone
+   by running it on the world itself) *)
+Definition quiet_load (m : N) (filename : list N) (root : Parser.etree) (st : Parser.pstate) (w : world) : bool :=
+  match install PNone root w with
+  | Val (OK t, w1) =>
+    let fid := N.of_nat (List.length (w_files w)) in
+    let w1' := mkWorld (w_nodes w1) (w_next w1)
+                       (w_files w1 ++ [mkFile m filename (Parser.p_version st) (Parser.p_standalone st)]) (w_models w1) in
+    match nth_opt (w_models w1') (N.to_nat m) with
+    | Some x =>
+      match w_nodes w1' (m_root x) with Some rn => negb (is_empty (n_files rn)) | None => false end &&
+      quiet T LATEST defref (fuel_of w1') w1' (m_root x) (fold_right set_add [] (m_files x)) (it_id t) fid
+    | None => false
+    end
+  | _ => false
+  end.
+
+Lemma set_mem_false f l : ~ In f l -> set_mem f l = false.
+Proof.
+  intros H. unfold set_mem. destruct (existsb (N.eqb f) l) eqn:E; [|reflexivity].
+  apply existsb_exists in E as (x & Hx & Ex). apply N.eqb_eq in Ex. subst x. contradiction.
+Qed.
+
+(* a rejected load whose conflict is found that early leaves no trace: the conclusion of C11 *)
+Theorem quiet_load_no_effect m filename root st w w' :
+  FreshIn (N.of_nat (List.length (w_files w))) w ->
+  quiet_load m filename root st w = true ->
+  load_parsed T LATEST defref m filename root st w = Val (ER InvalidFileMerge, w') ->
+  obs_eq_upto_garbage w w'.
+Proof.
+  intros HF Hq H.
+  destruct (load_parsed_reject_inv T LATEST defref m filename root st w w' H)
+    as (t & w1 & x & wM & x1 & o & wR & keep & wK & H1 & Hx & Eemp & Hm & Hx1 & Hr & Hk & Hd).
+  cbv zeta in Hx, Hm. unfold quiet_load in Hq. rewrite H1 in Hq. cbv zeta in Hq.
+  set (fid := N.of_nat (List.length (w_files w))) in *.
+  set (w1' := mkWorld (w_nodes w1) (w_next w1) (w_files w1 ++ [mkFile m filename (Parser.p_version st) (Parser.p_standalone st)]) (w_models w1)) in *.
+  rewrite Hx in Hq. apply andb_true_iff in Hq as [Hroot Hq].
+  destruct (quiet_sound T LATEST defref _ _ _ _ _ _ Hq) as (wM' & EM & WM).
+  assert (EwM : wM = wM').
+  { unfold merge_file_data in Hm. unfold wbind at 1 in Hm. unfold get_model at 1 in Hm. rewrite Hx in Hm.
+    unfold wbind at 1 in Hm. cbn [wget] in Hm. unfold wbind at 1 in Hm. rewrite EM in Hm. injection Hm as <-. reflexivity. }
+  subst wM'.
+  pose proof (above_install (w_next w) _ _ _ _ _ (N.le_refl _) H1) as (A1 & A2 & A3 & A4).
+  assert (HF1 : FreshIn fid w1') by (intros i n Hn; eapply (FreshIn_FK fid w w1 (FK_install root PNone w _ _ H1) HF); exact Hn).
+  pose proof (FreshIn_weq fid _ _ WM HF1) as HFM.
+  destruct WM as (M1 & M2 & M3 & M4).
+  assert (Ex1 : x1 = x) by (rewrite M3, Hx in Hx1; injection Hx1 as <-; reflexivity). subst x1.
+  apply wtry_inv in Hr as (r0 & Hr & _).
+  assert (WR : weq wM wR).
+  { eapply (rollback_fresh T (m_root x) fid wM r0 wR HFM); [|exact Hr].
+    intros n Hn. rewrite M4 in Hn. rewrite Hn in Hroot. apply negb_true_iff in Hroot. intros E. rewrite E in Hroot. discriminate. }
+  destruct WR as (R1 & R2 & R3 & R4).
+  apply kill_unreachable_eff in Hk as (_ & (K1 & K2 & K3 & K4 & _)).
+  apply drop_file_eff in Hd as (D1 & D2 & D3 & D4).
+  cbn [w_next w_files w_models w_nodes w1'] in *.
+  split; [lia|]. split; [|split].
+  - intros i Hi. rewrite D4, (K4 i Hi), R4, M4, (A2 i Hi).
+    destruct (w_nodes w i) as [n|] eqn:En; [|reflexivity]. cbn [option_map]. f_equal.
+    unfold rename_file. rewrite (set_mem_false fid (n_files n) (HF i n En)). reflexivity.
+  - rewrite D2, K2, R2, M2, A3. apply removelast_snoc.
+  - rewrite D3, K3, R3, M3. exact A4.
+Qed.
+
+End QuietLoad.
+
+(* ---------- on the tiny tables: a conflict that is found early leaves no trace, one that is found after a membership
+   was made explicit is not quiet (it is the residue example of LoadProofsRefuted.v) ---------- *)
+Module QuietExample.
+Import MergeSpec.TinyM.
+Definition conf_a2 : Parser.etree :=
+  plain nAUTOSAR [plain nPKGS [named nPKG "p" [plain nELEMENTS [named nSYSTEM "s" [named nSPROPS "x" []]]]]].
+Definition conf_a : Parser.etree :=
+  plain nAUTOSAR [plain nPKGS [named nPKG "p" [plain nELEMENTS [named nUNIT "t" []; named nSYSTEM "s" [named nSPROPS "x" []]]]]].
+Definition conf_b : Parser.etree :=
+  plain nAUTOSAR [plain nPKGS [named nPKG "p" [plain nELEMENTS [named nSYSTEM "s" [named nSPROPS "y" []]]]]].
+Definition after (e : Parser.etree) : world := match load_all [("a", e)] new_world with Val (_, w) => w | _ => new_world end.
+
+Example quiet_yes : quiet_load tiny LATEST DEFREF 0 (BS "b") conf_b (MergeSpec.pstate_of tiny 2 conf_b) (after conf_a2) = true.
+Proof. vm_compute. reflexivity. Qed.
+Example quiet_yes_rejected :
+  match load_tree "b" conf_b (after conf_a2) with Val (ER InvalidFileMerge, _) => true | _ => false end = true.
+Proof. vm_compute. reflexivity. Qed.
+Example quiet_no : quiet_load tiny LATEST DEFREF 0 (BS "b") conf_b (MergeSpec.pstate_of tiny 2 conf_b) (after conf_a) = false.
+Proof. vm_compute. reflexivity. Qed.
+End QuietExample.
+
+(* ------------------------------------------------------------------ AutosarModel::load_buffer, summary *)
+Section Summary.
+Variable T : tables.
+Variables tab_el tab_at tab_en : nametab.
+Variable check_fn : N -> list N -> res bool.
+Variable float_parse : list N -> option N.
+Variables LATEST defref : N.
+
+Theorem load_reject_observable m buffer filename strict w w' :
+  m_load_buffer T tab_el tab_at tab_en check_fn float_parse LATEST defref m buffer filename strict w
+    = Val (ER InvalidFileMerge, w') ->
+  let fid := N.of_nat (List.length (w_files w)) in
+  o_next (observe w) <= o_next (observe w') /\
+  o_files (observe w') = o_files (observe w) /\
+  Forall2 ModelRem (o_models (observe w)) (o_models (observe w')) /\
+  exists d, forall k, (k < N.to_nat (o_next (observe w)))%nat ->
+    match nth_error (o_nodes (observe w)) k, nth_error (o_nodes (observe w')) k with
+    | Some (Some n), Some (Some n') => NodeResidue fid d n n'
+    | Some None, Some None => True
+    | _, _ => False
+    end.
+Proof.
+  intros H fid. destruct (load_reject_residue T tab_el tab_at tab_en check_fn float_parse LATEST defref _ _ _ _ _ _ H) as (root & st & _ & HR).
+  eapply residue_observable; exact HR.
+Qed.
+
+Theorem load_reject_quiet m buffer filename strict w w' root st :
+  Parser.load strict T tab_el tab_at tab_en check_fn float_parse buffer = Val (Parser.Ret root st) ->
+  FreshIn (N.of_nat (List.length (w_files w))) w ->
+  quiet_load T LATEST defref m filename root st w = true ->
+  m_load_buffer T tab_el tab_at tab_en check_fn float_parse LATEST defref m buffer filename strict w
+    = Val (ER InvalidFileMerge, w') ->
+  obs_eq_upto_garbage w w'.
+Proof.
+  intros Hp HF Hq H. unfold m_load_buffer in H.
+  apply wbind_inv in H as [(x & w1 & H1 & H) | (e' & H1 & _)]; [|apply get_model_inv in H1 as (? & _ & [=] & _)].
+  apply get_model_inv in H1 as (x' & _ & _ & ->).
+  apply wbind_inv in H as [(w0 & w2 & H2 & H) | (e' & H2 & _)]; [|apply wget_inv in H2 as ([=] & _)].
+  apply wget_inv in H2 as (E2 & ->). injection E2 as ->.
+  destruct (existsb _ (m_files x)); [apply wfail_inv in H as ([=] & _)|].
+  rewrite Hp in H.
+  apply wbind_inv in H as [(fo & w3 & H3 & H) | (e' & H3 & [= <-])]; [apply wret_inv in H as ([=] & _)|].
+  eapply quiet_load_no_effect; eauto.
+Qed.
+
+End Summary.
